@@ -15,6 +15,11 @@ reference channels are nearly redundant / nearly delayed copies of each other / 
 the small component being 2**-k of the large one (cond(Yp) = O(1) * 2**k up to about 1e7), judged by the same Gram
 identity with the same tolerance against the projection evaluated in exact rational arithmetic (a float reference
 computed from the normal equations is itself only good to eps*cond(Yp)**2), through `build_hank` and through a run.
+Run parameters given as an object: ONE `SSIRunParams` object that reaches two algorithm objects (given to both at
+construction, with `set_run_params`, assigned after construction, or handed on - itself or a copy - from an algorithm that
+has run to an algorithm on another setup), both run orders of SSIcov / SSIdat and twice the same class, with and without a
+requested method: each `SSIResult.H` against `build_hank` of the records bound to that algorithm with the method its class
+stands for (or the requested one), and the object's br / method / ref_ind against a snapshot taken before the runs.
 
 What the statement leaves open is left open here:
   * the sign convention of the lag (only: the same in every block of one matrix),
@@ -38,7 +43,9 @@ TECHNIQUE = ("exhaustive evaluation of the bilinear map on a complete basis (all
              "SSIResult.H after real runs over every ordered reference list; long records (lengths at both sides of "
              "2**12..2**17 and multiples) against the same loop construction / projection identity; designed "
              "ill-conditioned past reference data (three families x conditioning levels) against the projection "
-             "evaluated in exact rational arithmetic")
+             "evaluated in exact rational arithmetic; SSIResult.H after real runs of two algorithm objects that received ONE "
+             "run-parameter object (five ways of sharing / handing on x ordered class pairs x requested method x every ordered "
+             "reference list)")
 LEVEL_TEXT = ("bounded-exhaustive: inside the stated shape range the covariance-method map is decided completely (a "
               "bilinear map is fixed by its values on a basis, and bilinearity is checked exhaustively on the smallest "
               "shapes); outside it, and for the data-driven method, a finite lattice around a payload alphabet, "
@@ -46,12 +53,16 @@ LEVEL_TEXT = ("bounded-exhaustive: inside the stated shape range the covariance-
               "5000, 20000, 70001 and 3*2**16+50 samples; 1..3 channels, br 1..3) and a lattice of ill-conditioned "
               "full-rank reference data for the data-driven method (3 families x small/large component ratio 2**-k, "
               "k in 0..20, i.e. cond(Yp) from ~1e1 to ~1e7, x 4 shapes x 2 record lengths x float/int64 records x "
-              "build_hank / SSIdat.run)")
+              "build_hank / SSIdat.run); runs are explored with keyword-argument construction and with one run-parameter "
+              "object reaching two algorithms (5 sharing forms x both run orders of SSIcov/SSIdat x every ordered reference "
+              "list of 1..4 channels with no method requested; 4 requested methods x 4 ordered class pairs x 2 run routes on "
+              "6 reference lists)")
 RULE = ("basis part: one case = (channels l, references r, block rows br, record length, method, channel a, "
         "reference b, impulse-time difference s-t); non-trivial iff |s-t| equals the lag of at least one block, so "
         "that the prescribed matrix is non-zero; cases differing only in the absolute impulse time are NOT counted "
         "as distinct. Other parts: one case = one lattice point (part, shape, method, variant); all are non-trivial "
-        "(dense payload records); ill-conditioned part: one case = (lattice point, record form, route)")
+        "(dense payload records); ill-conditioned part: one case = (lattice point, record form, route); shared run-parameter "
+        "part: one case = (lattice point, first / second algorithm of the pair)")
 ASSUMPTIONS = [
     "numpy dot/solve/cond are the reference operations (trusted)",
     "the sign of the lag, the averaging window and the normalisation are not fixed by the statement: any consistent "
@@ -75,6 +86,13 @@ ASSUMPTIONS = [
     "the data, ~eps*cond(Yp) (measured on the library: up to 9e-11 at level 2**-20, 1.6e-10 at 2**-21, 2.4e-10 at cond 6e7, "
     "1.2e-9 at 4e8), approaches the tolerance 1e-9 of the Gram identity, which is not loosened; rank-deficient "
     "reference data are outside the statement (the projection is not unique)",
+    "which method an algorithm object stands for: SSIcov builds the moment matrix (cov_mm) unless its run parameters request "
+    "another method, SSIdat the data-driven matrix; a run-parameter object that requests a covariance method and is given to an "
+    "SSIdat is run but its matrix is not judged (the statement does not say). A run-parameter object is shared between TWO "
+    "algorithm objects only (SSIcov / SSIdat of single setups, ordmax 2, br 3 [thorough: 2, 3, 5], 60 samples, calc_unc off), by "
+    "`run_params=`, `set_run_params()`, attribute assignment, or handed on (itself / `model_copy()`) after the first algorithm has "
+    "run on another setup; mpe calls between the runs, three or more algorithms on one object and the multi-setup classes are not "
+    "explored",
 ]
 
 TOL_EXACT = 1e-12
@@ -756,6 +774,151 @@ def run_config(item):
 
 
 # ------------------------------------------------------------------------------------------------
+# part 6: SSIResult.H after runs whose run parameters are given as ONE run-parameter object that reaches two algorithm objects
+
+SHARE_FORMS = ("run_params=", "set_run_params", "attribute-assigned-after-construction",
+               "handed-on:run_params-of-an-algorithm-that-has-run", "handed-on:model_copy-of-run_params-of-an-algorithm-that-has-run")
+SHARE_PAIRS = (("SSIcov", "SSIdat"), ("SSIdat", "SSIcov"), ("SSIcov", "SSIcov"), ("SSIdat", "SSIdat"))   # (runs first, runs second)
+SHARE_ROUTES = ("run_all", "run_by_name")
+SHARE_FIELDS = ("br", "method", "ref_ind")          # the run parameters the block matrix depends on
+CLASS_METHOD = {"SSIcov": "cov_mm", "SSIdat": "dat"}
+
+
+def share_expected_method(cls, requested):
+    """The method the matrix of an algorithm of class `cls` must follow when the run-parameter object requests `requested`:
+    nothing requested -> the method the class stands for; SSIcov -> the requested method; SSIdat -> 'dat' (a covariance
+    method requested from the data-driven class: the statement does not say, not judged -> None)."""
+    if requested is None:
+        return CLASS_METHOD[cls]
+    if cls == "SSIcov" or requested == "dat":
+        return requested
+    return None
+
+
+def share_config(item):
+    """One run-parameter object (`SSIRunParams`) reaches two algorithm objects; each `SSIResult.H` is compared with
+    `build_hank` of the records bound to that algorithm, with the method its class stands for / the method requested in
+    the object, and the fields of the object the matrix depends on are compared with a snapshot taken before the runs.
+
+    forms: the object is given to both algorithms at construction (`run_params=`), with `set_run_params()`, or assigned to
+    the `run_params` attribute after construction (both algorithms in ONE setup; run with `run_all` in the order of
+    addition or with `run_by_name` one after the other); or the first algorithm is built with keyword arguments and run on
+    its own setup and its `run_params` object (or a `model_copy()` of it) is handed on to the second algorithm, which runs
+    on another setup with other records of the same shape."""
+    seed, cfg = item
+    idx, l, ref, br, Nd, requested, form, pair, route = cfg
+    import pyoma2.algorithms as algs
+    from pyoma2.algorithms.data.run_params import SSIRunParams
+    from pyoma2.setup import SingleSetup
+
+    t = Tally()
+    t.states = 1
+    case = {"part": "share", "cfg": list(cfg), "seed": seed}
+    dtype = ("float64", "int16", "int32")[idx % 3]
+    datas = []
+    for tag in ("1", "2"):
+        d = payload.normal(seed, f"c12/share{tag}/{l}/{Nd}", (Nd, l))
+        if dtype != "float64":
+            d = np.round(d * (900.0 if dtype == "int16" else 2.0e6)).astype(dtype)
+        datas.append(d)
+    kw = dict(br=br, ordmax=2)
+    if requested is not None:
+        kw["method"] = requested
+    if ref is not None:
+        kw["ref_ind"] = list(ref)
+    handed = form.startswith("handed-on")
+    names = ("first", "second")
+    what = (f"one SSIRunParams object (method={requested!r}, ref_ind={ref}, br={br}) for {pair[0]} then {pair[1]} "
+            f"({form}, {route}), l={l} Ndat={Nd}")
+    try:
+        if not handed:
+            rp = SSIRunParams(**kw)
+            if form == "run_params=":
+                objs = [getattr(algs, c)(name=n, run_params=rp) for c, n in zip(pair, names)]
+            elif form == "set_run_params":
+                objs = [getattr(algs, c)(name=n).set_run_params(rp) for c, n in zip(pair, names)]
+            else:
+                objs = [getattr(algs, c)(name=n) for c, n in zip(pair, names)]
+                for o in objs:
+                    o.run_params = rp
+            snap = {f: getattr(rp, f) if f != "ref_ind" else (None if rp.ref_ind is None else list(rp.ref_ind)) for f in SHARE_FIELDS}
+            ss = SingleSetup(datas[0].copy(), fs=10.0)
+            ss.add_algorithms(*objs)
+            if route == "run_all":
+                ss.run_all()
+            else:
+                for n in names:
+                    ss.run_by_name(n)
+            bound = [datas[0], datas[0]]
+            holders = [rp]
+        else:
+            first = getattr(algs, pair[0])(name="first", **kw)
+            rp = first.run_params
+            snap = {f: getattr(rp, f) if f != "ref_ind" else (None if rp.ref_ind is None else list(rp.ref_ind)) for f in SHARE_FIELDS}
+            s1 = SingleSetup(datas[0].copy(), fs=10.0)
+            s1.add_algorithms(first)
+            s1.run_all() if route == "run_all" else s1.run_by_name("first")
+            rp2 = rp.model_copy() if "model_copy" in form else rp
+            # the second algorithm receives the object by the argument / by the setter, rotating with the point
+            second = (getattr(algs, pair[1])(name="second", run_params=rp2) if idx % 2 == 0
+                      else getattr(algs, pair[1])(name="second").set_run_params(rp2))
+            s2 = SingleSetup(datas[1].copy(), fs=10.0)
+            s2.add_algorithms(second)
+            s2.run_all() if route == "run_all" else s2.run_by_name("second")
+            objs = [first, second]
+            bound = [datas[0], datas[1]]
+            holders = [rp] if rp2 is rp else [rp, rp2]
+        Hs = [np.asarray(o.result.H) for o in objs]
+    except Exception as e:
+        t.evaluations += 1
+        t.violation(f"raises:{type(e).__name__}:share:{form}", f"raised {type(e).__name__}: {e} with {what}", case)
+        return t
+    t.outcomes[f"share:records-as-{dtype}"] += 1
+    for pos, (cls, H, d) in enumerate(zip(pair, Hs, bound)):
+        method = share_expected_method(cls, requested)
+        if method is None:
+            t.not_judged += 1
+            t.outcomes["share:covariance-method-requested-from-SSIdat:not-judged"] += 1
+            continue
+        Y = d.T.astype(float)
+        want = _hank(Y, Y if ref is None else Y[list(ref), :], br, method)
+        t.evaluations += 2
+        t.transitions += 1
+        t.validated += 1
+        t.nontrivial.add(("share", idx, pos))
+        if not (H.shape == want.shape and bool(np.max(np.abs(H - want)) <= 1e-13 * np.max(np.abs(want)))):
+            other = None
+            for m in ("cov_mm", "cov_R", "dat"):
+                if m != method:
+                    w2 = _hank(Y, Y if ref is None else Y[list(ref), :], br, m)
+                    if H.shape == w2.shape and bool(np.max(np.abs(H - w2)) <= 1e-13 * np.max(np.abs(w2))):
+                        other = m
+            t.violation(f"share:H-differs:{cls}:{method}:runs-{names[pos]}",
+                        f"{what}: result.H of the {cls} that runs {names[pos]} (shape {H.shape}) is not build_hank(data.T, data.T[ref_ind], "
+                        f"method={method!r}) of the records bound to it (shape {want.shape})"
+                        + (f"; it equals the matrix of method {other!r}" if other else ""), case)
+        else:
+            t.outcomes[f"share:H-equal:{cls}:{method}:runs-{names[pos]}"] += 1
+            t.outcomes[f"share:H-equal:{form}"] += 1
+            t.outcomes[f"share:H-equal:{route}"] += 1
+            t.outcomes[f"share:H-equal:{pair[0]}-then-{pair[1]}:requested-{requested}"] += 1
+    # the run parameters the matrix depends on are the user's: as given, after the runs
+    t.evaluations += 1
+    changed = [(f, snap[f], getattr(h, f)) for h in holders for f in SHARE_FIELDS
+               if (getattr(h, f) if f != "ref_ind" or getattr(h, f) is None else list(getattr(h, f))) != snap[f]]
+    if changed:
+        f, was, now = changed[0]
+        t.violation(f"share:run-params-changed-by-run:{f}",
+                    f"{what}: after the runs the run-parameter object holds {f}={now!r}, it was given with {f}={was!r}", case)
+    else:
+        t.outcomes["share:run-params-as-given-after-runs"] += 1
+        if idx % 97 == 0:
+            t.sample({"part": "share", "l": l, "ref_ind": ref, "br": br, "Ndat": Nd, "requested_method": requested, "form": form,
+                      "classes_in_run_order": list(pair), "route": route, "record_type": dtype})
+    return t
+
+
+# ------------------------------------------------------------------------------------------------
 # lattices
 
 def basis_lattice(thorough):
@@ -851,6 +1014,45 @@ def run_lattice(thorough):
     return out
 
 
+SHARE_REQUESTED = (None, "cov_mm", "cov_R", "dat")
+SHARE_SMALL_REFS = ((1, None), (2, [1, 0]), (3, None), (3, [2, 0]), (3, [1]), (4, [3, 1, 0]))          # (channels, ref_ind)
+
+
+def share_lattice(thorough):
+    """(a) nothing requested in the shared object (method=None, the default): every ordered reference list of 1..4 channels x
+    every sharing form x both run orders of the two classes, the run route rotating with the point (thorough: both routes,
+    br 2, 3, 5); (b) on six (channels, ref_ind) points: every requested method (None, cov_mm, cov_R, dat) x every form x
+    every ordered pair of classes (also twice the same class) x both routes. Points of (b) that are in (a) are not repeated."""
+    out, seen = [], set()
+
+    def add(l, ref, br, Nd, requested, form, pair, route):
+        key = (l, None if ref is None else tuple(ref), br, Nd, requested, form, pair, route)
+        if key not in seen:
+            seen.add(key)
+            out.append((len(out), l, ref, br, Nd, requested, form, pair, route))
+
+    n = 0
+    for l in range(1, 5):
+        refs = [None]
+        for k in range(1, l + 1):
+            refs += [list(p) for p in itertools.permutations(range(l), k)]
+        for ref in refs:
+            for br in ((2, 3, 5) if thorough else (3,)):
+                for f, form in enumerate(SHARE_FORMS):
+                    for q, pair in enumerate(SHARE_PAIRS[:2]):
+                        for route in (SHARE_ROUTES if thorough else (SHARE_ROUTES[(n + f + q) % 2],)):
+                            add(l, ref, br, 60, None, form, pair, route)
+            n += 1
+    for (l, ref) in SHARE_SMALL_REFS:
+        for br in ((2, 3) if thorough else (3,)):
+            for requested in SHARE_REQUESTED:
+                for form in SHARE_FORMS:
+                    for pair in SHARE_PAIRS:
+                        for route in SHARE_ROUTES:
+                            add(l, ref, br, 60, requested, form, pair, route)
+    return out
+
+
 COND_SHAPES = ((2, 2, 1), (3, 2, 2), (4, 3, 3), (3, 2, 5))                 # (channels, references, br)
 COND_SHAPES_THOROUGH = COND_SHAPES + ((3, 3, 1), (4, 2, 3), (5, 3, 2), (2, 2, 8))
 
@@ -881,6 +1083,7 @@ def explore(ctx):
     loop = padded_lattice(ctx.thorough, ("cov_mm", "cov_R"))
     dat = padded_lattice(ctx.thorough, ("dat",))
     runs = run_lattice(ctx.thorough)
+    shares = share_lattice(ctx.thorough)
     longc = long_lattice(ctx.thorough, ("cov_mm", "cov_R"))
     longd = long_lattice(ctx.thorough, ("dat",))
     ctx.bounds = {
@@ -895,6 +1098,18 @@ def explore(ctx):
                            "record_lengths": [min(c[4] for c in dat), max(c[4] for c in dat)], "variants": list(VARIANTS)},
         "run": {"points": len(runs), "channels": [1, 2, 3, 4], "ref_ind": "None and every ordered arrangement of every non-empty subset",
                 "br": sorted({c[3] for c in runs}), "record_lengths": sorted({c[4] for c in runs}), "methods": ["cov_mm", "cov_R", "dat"]},
+        "run_with_shared_run_parameter_object": {
+            "points": len(shares), "what": "ONE SSIRunParams object reaches two algorithm objects; SSIResult.H of each against build_hank of the "
+            "records bound to it with the method its class stands for (SSIcov: cov_mm, SSIdat: dat) or the method requested in the object; "
+            "the fields br, method, ref_ind of the object against a snapshot taken before the runs",
+            "forms": list(SHARE_FORMS), "classes_in_run_order": [list(p) for p in SHARE_PAIRS], "routes": list(SHARE_ROUTES),
+            "requested_method": [str(m) for m in SHARE_REQUESTED], "channels": [1, 2, 3, 4],
+            "ref_ind": "method None, two classes: None and every ordered arrangement of every non-empty subset; all requested methods / same class "
+                       "twice: " + str([list(x) for x in SHARE_SMALL_REFS]),
+            "br": sorted({c[3] for c in shares}), "record_lengths": sorted({c[4] for c in shares}),
+            "rotation": "record type (float64/int16/int32) with the point; quick: run route with the point on the full ref_ind lattice; "
+                        "handed-on forms: argument / setter with the point",
+            "not_judged": "the matrix of an SSIdat whose run-parameter object requests a covariance method (the statement does not say)"},
         "long_records": {"points": len(longc) + len(longd), "methods": list(LONG_METHODS),
                          "averaged_products(Ndat-2br-1)": [f"2**{kd[0]}{kd[1]:+d}" for kd, _ in long_lengths(ctx.thorough) if kd is not None],
                          "other_record_lengths": [b for a, b in long_lengths(ctx.thorough) if a is None],
@@ -920,6 +1135,7 @@ def explore(ctx):
     # ill-conditioned past reference data, costliest exact reference first
     ctx.pmap(cond_config, [(ctx.seed, c) for c in sorted(condl, key=lambda c: -(c[3] + c[4]) * c[4] * (c[5] + 1) ** 2 * c[6])], chunksize=1)
     ctx.pmap(run_config, [(ctx.seed, c) for c in runs], chunksize=4)
+    ctx.pmap(share_config, [(ctx.seed, c) for c in shares], chunksize=8)
     # long records, longest first
     ctx.pmap(padded_cov_config, [(ctx.seed, c) for c in sorted(longc, key=lambda c: -c[4] * c[1])], chunksize=1)
     ctx.pmap(dat_config, [(ctx.seed, c) for c in sorted(longd, key=lambda c: -c[4] * c[1])], chunksize=1)
@@ -939,6 +1155,15 @@ def explore(ctx):
                 *[f"cond:gram-equal:{rt}" for rt in COND_ROUTES], *[f"cond:records-as-{f}" for f in COND_FORMS],
                 "cond:gram-equal:cond(Yp)<1e2", "cond:gram-equal:cond(Yp)>=1e2", "cond:gram-equal:cond(Yp)>=1e4", "cond:gram-equal:cond(Yp)>=1e6",
                 "cond:records:cond(Yp)-at-least-2**level", "cond:records:more-samples-than-stacked-rows")
+    # the shared-run-parameter region was really explored: each class judged equal with its own method as first and as second
+    # runner, every form, both routes, both orders of the two classes with nothing requested, every requested method, each record type
+    ctx.require(*[f"share:H-equal:{c}:{CLASS_METHOD[c]}:runs-{w}" for c in CLASS_METHOD for w in ("first", "second")],
+                *[f"share:H-equal:{f}" for f in SHARE_FORMS], *[f"share:H-equal:{r}" for r in SHARE_ROUTES],
+                *[f"share:H-equal:{a}-then-{b}:requested-None" for a, b in SHARE_PAIRS],
+                *[f"share:H-equal:SSIcov-then-SSIdat:requested-{m}" for m in SHARE_REQUESTED[1:]],
+                *[f"share:H-equal:SSIdat-then-SSIcov:requested-{m}" for m in SHARE_REQUESTED[1:]],
+                "share:H-equal:SSIcov:cov_R:runs-second", "share:H-equal:SSIcov:dat:runs-second",
+                "share:run-params-as-given-after-runs", *[f"share:records-as-{d}" for d in LONG_DTYPES])
     for m in ("cov_mm", "cov_R"):
         if not any(k.startswith(f"long:loop:equal:{m}") for k in ctx.tally.outcomes):
             ctx.require(f"long:loop:equal:{m}")
@@ -964,4 +1189,8 @@ def replay(case):
     if part == "run":
         c = list(cfg)
         return run_config((case["seed"], tuple(c)))
+    if part == "share":
+        c = list(cfg)
+        c[7] = tuple(c[7])
+        return share_config((case["seed"], tuple(c)))
     raise ValueError(part)
